@@ -58,3 +58,28 @@ Print Assumptions C09_split_bare.
 Theorem C09_split_sound : forall s ps, parse_ahb s = Ok ps -> s = print_raws ps /\ result_shape ps.
 Proof. exact parse_ahb_sound. Qed.
 Print Assumptions C09_split_sound.
+
+(* ---- every schedule. Model/EvalAhbAsync.v writes AhbExpressionTransformer._ahb_expression_async as a task tree: the parts with a condition
+   expression are gathered coroutines (await requirement_constraint_evaluation, then await format_constraint_evaluation -- arbitrary programs),
+   bare indicators are plain results, gather_if_necessary puts every result back into the slot of its part. Whatever the order in which the parts
+   run, the result is the sequential model's; with the content-evaluation-result based evaluations that model is eval_ahb of Model/EvalAhb.v. *)
+From Ahb Require Import Model.Async Model.EvalAhbAsync Proofs.C09_async.
+
+Theorem C09_every_schedule_yields_the_sequential_result : forall (U : Type) (rcp : kexpr -> prog (av U)) (fcp : option fctoks -> prog (av U))
+    (c : ctx (av U)) (a : ahb) (r : av U),
+  steps (initial c (ahb_prog U rcp fcp a)) (Done r) -> as_part r = eval_ahb_gen (rcf_of U rcp c) (fcf_of U rcp fcp c) a.
+Proof. exact ahb_every_schedule. Qed.
+Print Assumptions C09_every_schedule_yields_the_sequential_result.
+
+Theorem C09_first_fulfilled_part_under_every_schedule : forall (U : Type) (rcp : kexpr -> prog (av U)) (fcp : option fctoks -> prog (av U))
+    (c : ctx (av U)) (a : ahb) (r : av U) (res : ahbres),
+  steps (initial c (ahb_prog U rcp fcp a)) (Done r) -> as_part r = Ok res ->
+  exists inds rs, mapM part_indicator a = Ok inds /\
+                  map2M (eval_part_gen (rcf_of U rcp c) (fcf_of U rcp fcp c)) a inds = Ok rs /\
+                  select (1 <? length a) rs = Some res.
+Proof. exact selected_part_every_schedule. Qed.
+Print Assumptions C09_first_fulfilled_part_under_every_schedule.
+
+Theorem C09_sequential_model_is_eval_ahb : forall c a, eval_ahb c a = eval_ahb_gen (rc_evaluation c) (fc_of_cer c) a.
+Proof. exact eval_ahb_is_gen. Qed.
+Print Assumptions C09_sequential_model_is_eval_ahb.
